@@ -183,7 +183,7 @@ Variables cur soff : Z.
 
 Definition later_refusal (b' : bytes) : Prop :=
   cri b' = None \/
-  (cri b' = Some false /\ 0 <= as_thr c /\ ((0 < soff /\ cur < soff) \/ spam b' = true)) \/
+  (cri b' = Some false /\ 0 <= as_thr c /\ ((is_cri c = true /\ 0 < soff /\ cur < soff) \/ spam b' = true)) \/
   decode_ok b' = false.
 
 Lemma pipeline_in_go b o b' cut :
@@ -194,7 +194,7 @@ Lemma pipeline_in_go b o b' cut :
   | None => Refused RCri
   | Some partial =>
       if negb partial && (0 <=? as_thr c) then
-        if (0 <? soff) && (cur <? soff) then Refused RCommitted
+        if is_cri c && (0 <? soff) && (cur <? soff) then Refused RCommitted
         else in_stage2 c decode_ok b' cut true (spam b')
       else in_stage2 c decode_ok b' cut false (spam b')
   end.
@@ -202,7 +202,7 @@ Proof.
   intros Ha Ho. unfold pipeline_in, in_stage1. rewrite Ha.
   destruct Ho as [[-> ->]|[-> ->]]; destruct (cri b') as [p|]; try reflexivity;
     destruct (negb p && (0 <=? as_thr c)); try reflexivity;
-    destruct ((0 <? soff) && (cur <? soff)); reflexivity.
+    destruct (is_cri c && (0 <? soff) && (cur <? soff)); reflexivity.
 Qed.
 
 Lemma chain_tail_refused_iff b' cut :
@@ -211,7 +211,7 @@ Lemma chain_tail_refused_iff b' cut :
     | None => Refused RCri
     | Some partial =>
         if negb partial && (0 <=? as_thr c) then
-          if (0 <? soff) && (cur <? soff) then Refused RCommitted
+          if is_cri c && (0 <? soff) && (cur <? soff) then Refused RCommitted
           else in_stage2 c decode_ok b' cut true (spam b')
         else in_stage2 c decode_ok b' cut false (spam b')
     end = Refused w) <-> later_refusal b'.
@@ -225,7 +225,7 @@ Proof.
         intros [H|[[H _]|H]]; discriminate.
       * split; [intros _; right; right; reflexivity | intros _; eauto].
     + destruct (0 <=? as_thr c) eqn:Ht.
-      * destruct ((0 <? soff) && (cur <? soff)) eqn:Hco.
+      * destruct (is_cri c && (0 <? soff) && (cur <? soff)) eqn:Hco.
         -- split; [intros _ | intros _; eauto].
            right; left. repeat split; try lia.
         -- cbn [andb]. destruct (spam b') eqn:Hs.
@@ -309,7 +309,7 @@ Proof.
   rewrite <- Hcut.
   destruct (cri b') as [p|]; [|discriminate].
   destruct (negb p && (0 <=? as_thr c)).
-  - destruct ((0 <? soff) && (cur <? soff)); [discriminate|]. exact (Hs2 true Hd).
+  - destruct (is_cri c && (0 <? soff) && (cur <? soff)); [discriminate|]. exact (Hs2 true Hd).
   - exact (Hs2 false Hd).
 Qed.
 
